@@ -62,6 +62,7 @@ Leave your modification applied in the worktree when you finish. In your final a
 SUGGEST = {
     6: 'a unit or scale convention (fs vs s, Angstrom vs m, per-atom vs per-cell, frames vs time, n vs n-1 in a denominator) that coincides in the common case; an aggregation over a group that silently assumes the group is non-empty, sorted, unique or contiguous; a comparison that should be strict / non-strict exactly at a threshold the user passes; state kept at module or class level (a default mutable argument, a class attribute used as a scratch buffer, a global registry) so that one call or one object influences the next; an argument that is honoured on the first call but ignored on later ones; a copy that became a view (or a view that became a copy) so that results alias each other or the input; symmetric treatment of something asymmetric (a transposed matrix, swapped axes of a non-cubic grid, row vs column vectors of the lattice); a tolerance / epsilon introduced "for robustness" that changes results near but not at a boundary; iteration order of a dict / set / groupby that is assumed to be sorted; integer overflow or float precision loss in an index computation (flattened indices, packed keys); behaviour for the LAST element, frame, atom, site or part only.',
 }
+SUGGEST[7] = 'a shape coincidence that hides an axis mix-up (n_atoms == n_frames, n_atoms == 3, n_sites == n_atoms, a single frame, a single atom of a species, square vs non-square tables); truthiness of numbers and arrays (`if radius:` with 0.0, `x or default`, `if arr:`), `is` vs `==`, default arguments evaluated once at definition time; vectorising a loop with a subtly different broadcast, reduction axis, keepdims or order of operations; numerical stability (catastrophic cancellation, accumulation in float32, summation order, mean of huge numbers, log of tiny numbers) that matters only for long runs or large offsets; ties and stability in sorting / argmin / unique / digitize (equal distances, equal times, equal energies, duplicate rows); NaN / inf / negative zero propagation through min, max, sort, comparisons; integer division, floor vs truncation for negative values, modulo of negative numbers; handling of an empty selection, an empty table, zero counts, all-equal data; sampling or striding introduced as a speed-up (every k-th frame, early exit of a search, a cut-off on the number of neighbours or images) that is exact for small cases only; an exception or warning swallowed by a broad except so that a fallback result is returned silently; keyword arguments that are accepted but not forwarded by a wrapper, or forwarded under the wrong name; mutable objects (lists, dicts, DataFrames, Structures) stored by reference and changed later by the caller or by the library.'
 NOTES = {
     'C18': 'Note: fft_autocorrelation is already known to deviate from the definition for lags > 0 (inverse FFT length) and symmetrize(sym_ops=<single 2-D matrix>) is known to mishandle a single matrix; do not rely on those.',
     'C20': 'Note: Jumps.collective() is already known to keep its Jumps alive through the cached Collective; do not rely on that.',
